@@ -236,7 +236,7 @@ func runKEYINDEX(c *Ctx) {
 	}
 	var reqs []preq
 	for _, fn := range P.Funcs {
-		if fn.Pkg.Pkg.Path() != ir.MastPath || c.Facts.debugOnlyFunc(fn) != "" || fn.Name() == "String" {
+		if fn.Pkg.Pkg.Path() != ir.MastPath || c.Facts.debugOnlyFunc(fn) != "" {
 			continue
 		}
 		for _, b := range fn.Blocks {
@@ -349,6 +349,11 @@ func atMostALength(v ssa.Value, seen map[ssa.Value]bool) bool {
 	case *ssa.UnOp:
 		// a variable cell with several stores (i declared outside a closure): every stored value
 		if x.Op == token.MUL {
+			// the position kept in a path entry never exceeds the number of keys of the entry's node (entry
+			// invariant, established by ENTRYINV for every store to it)
+			if fa, ok := x.X.(*ssa.FieldAddr); ok && ir.FieldName(fa.X.Type(), fa.Field) == posFieldName {
+				return true
+			}
 			if a, ok := x.X.(*ssa.Alloc); ok {
 				stores, escapes := ir.CellStores(a)
 				if escapes || len(stores) == 0 {
